@@ -96,5 +96,7 @@ def sortBy {α : Type} (le : α → α → Bool) : List α → List α
   | [] => []
   | x :: xs => insertBy le x (sortBy le xs)
 
-def sumInts (l : List Int) : Int := l.foldl (· + ·) 0
+def sumInts : List Int → Int
+  | [] => 0
+  | x :: xs => x + sumInts xs
 end Nibiru
